@@ -99,7 +99,8 @@ class Triples(Stream):
                    vals(hist([a, b, c])), vals(hist([c, a, b])),
                    vals(FreeCapacity(total=hist([a, b, c]), allocated=hist([b, c])).free),
                    vals((a - b) + b), vals(a - a),
-                   posf(a, fs[:2]), posf(a, fs[:1] + ['no_such_field']), posf(a, ['no_such_field'] + fs[:1])]
+                   posf(a, fs[:2]), posf(a, fs[:1] + ['no_such_field']), posf(a, ['no_such_field'] + fs[:1]),
+                   vals((a - b) + (a - b)), vals((a - b) + Capacities()), vals((a - b) - c), vals(Capacities() + (a - b))]
         except Exception as e:
             obs = {'err': type(e).__name__}
         mutated = [x.__dict__ for x in (a, b, c)] != snap
@@ -164,7 +165,8 @@ class Triples(Stream):
             return 'operation raised ' + obs['err']
         a, b, c = case
         (add, sub, addsub, addc, assoc1, assoc2, gt, lt, eq, eqs, eqr, negba, negab, free, freeplus,
-         js, st, ja, sa, pos, _, fstr, fnone, fget, h1, h2, hfree, subadd, subself, pos2, posk1, posk2) = obs
+         js, st, ja, sa, pos, _, fstr, fnone, fget, h1, h2, hfree, subadd, subself, pos2, posk1, posk2,
+         negsum, negzero, negsub, zeroneg) = obs
         if addsub != a:
             return '(a+b)-b != a'
         if add != addc:
@@ -184,6 +186,8 @@ class Triples(Stream):
             return 'negative fields not reported by name'
         if not eqr or eq != eqs or eq != (a == b):
             return 'equality not reflexive/symmetric/exact'
+        if negsum != [2 * x for x in sub] or negzero != sub or zeroneg != sub or negsub != [x - z for x, z in zip(sub, c)]:
+            return 'arithmetic on a negative result is not field by field'
         if subadd != a or any(subself):
             return '(a-b)+b != a or a-a != 0'
         if fnone != a:
